@@ -84,7 +84,7 @@ Emit == (Len(hist) = Len(Pre) + N \/ (Len(hist) >= Len(Pre) /\ Stuck))
 InvInit == Init /\ hist = <<>>
 InvNext == Next /\ UNCHANGED hist
 MCSpecInv == InvInit /\ [][InvNext]_<<vars, hist>>
-CntBound == \A g \in Gens : gens[g].cnt <= MaxCnt
+CntBound == \A g \in Gens : \A f \in Fns : gens[g].cnt[f] <= Base(f) + MaxCnt
 
 Inv == TypeOK /\ RefCountsExact /\ FreedIffUnheld /\ CallValid
 =============================================================================
